@@ -152,6 +152,16 @@ def allowed(cls: Cls, state: dict) -> Tuple[bool, str]:
     return False, f"{cls.kind} value in {context_name(state)} (only constants are safe there)"
 
 
+def _literal_origin(e):
+    """Origin tree of a literal (constants, tuples / lists of literals); None for anything else."""
+    if isinstance(e, ast.Constant):
+        return ("const", e.value)
+    if isinstance(e, (ast.Tuple, ast.List)):
+        items = [_literal_origin(x) for x in e.elts]
+        return ("tuple", tuple(items)) if all(i is not None for i in items) else None
+    return None
+
+
 class Taint:
     def __init__(self, project: Project):
         self.project = project
@@ -422,14 +432,23 @@ class Taint:
         if lst[0] == "tuple":
             out = [(fi, x, env) for x in lst[1]]
             return out
-        if lst[0] == "phi":
+        if lst[0] == "phi" or lst[0] == "ifexp":
             out = []
-            for x in lst[1]:
+            for x in (lst[1] if lst[0] == "phi" else (lst[2], lst[3])):
                 r = self.elements(fi, x, env, depth + 1)
                 if r is None:
                     return None
                 out += r
             return out
+        if lst[0] == "global" and isinstance(lst[1], str):
+            # a module-level table (tuple / list display) of the package
+            mod, _, nm = lst[1].rpartition(".")
+            m = self.project.modules.get(mod)
+            tv = m.top_assigns.get(nm) if m else None
+            if isinstance(tv, (ast.Tuple, ast.List)):
+                sc = Scope(self.project, None, m)
+                o = Origins.__new__(Origins)       # origins of module-level literals need no flow: evaluate the display structurally
+                return [(fi, _literal_origin(x), env) for x in tv.elts] if all(_literal_origin(x) is not None for x in tv.elts) else None
         if lst[0] == "param":
             sites = call_sites(self.project, fi.qualname)
             if not sites:
